@@ -68,6 +68,26 @@ def er_facts(F, S):
                 good = False
             if not any(isinstance(s_, tuple) and s_[0] == "lv" for s_ in sides):
                 good = False
+        # `previous` must be seeded with the reference value and carried: set to the element just visited, unconditionally, and
+        # handed from one scan to the next — otherwise the differences do not form a chain from the reference to the input
+        prev_term = first
+        for lay in sorted(layers, key=lambda l_: l_[3]):
+            inc = lay[2]
+            if not (isinstance(inc, tuple) and inc[0] == "abs" and isinstance(inc[1], tuple) and inc[1][0] == "-"):
+                continue
+            lvs = [s_ for s_ in inc[1][1:] if isinstance(s_, tuple) and s_[0] == "lv"]
+            elems = [s_ for s_ in inc[1][1:] if isinstance(s_, tuple) and s_[0] == "select"]
+            info = ex.loop_info.get(lay[3])
+            if len(lvs) != 1 or len(elems) != 1 or info is None:
+                good = False
+                continue
+            summ = info["summaries"].get(lvs[0][2])
+            chain_ok = isinstance(summ, tuple) and summ[0] == "pick" and summ[1] == prev_term and set(summ[2]) == {elems[0]} and summ[4] == elems[0]
+            if not chain_ok:
+                good = False
+                S.bad("O4", "er-chain", fn.label, "%s: in the volatility scan `previous` is %s (seed %s); it must start at the reference value and become each visited element in turn"
+                      % (fn.label, show(summ)[:100], show(summ[1])[:60] if isinstance(summ, tuple) and len(summ) > 1 else "?"), "%s:%s" % (fn.span["file"], fn.span["line"]))
+            prev_term = summ
         if good:
             S.ok("O4", "ER denominator = sum over the window (%d slice loop(s)) of |previous - element|, starting from 0" % len(layers))
         else:
